@@ -116,6 +116,17 @@ def run(tier):
         total, miss = progs.coverage(table, family, res)
         uncovered[family] = miss
         check.cov["variants_%s" % family] = total
+        # which productions of the real grammar did these programs reach?  (goyacc debug stream, see LRDriver.tla)
+        lt = [{"op": "lrtrace", "src": t["src"], "ver": m["ver"], "tables": k == 0} for k, (m, t, r) in enumerate(res)
+              if m["layout"] == "none" and m["ver"] == vers[0]]
+        rules, nrules = set(), 0
+        for r in wp.run(lt):
+            if r.get("panic") or r.get("hang") or r.get("crash"):
+                continue
+            nrules = nrules or len(r.get("r2") or [])
+            rules.update(e[1] for e in r["evs"] if e[0] == "reduce")
+        check.cov["grammar_rules_reduced_%s" % family] = "%d of %d" % (len(rules), max(nrules - 1, 0))
+        check.cov["grammar_rules_never_reduced_%s" % family] = [i for i in range(1, nrules) if i not in rules][:400]
         if family == "7":
             sample = res[len(res) // 2]
             check.sample({"direction": "spec->impl", "src": sample[1]["src"], "variants_used": sample[0]["used"][:12]})
